@@ -1,6 +1,7 @@
 package props
 
 import (
+	"github.com/zitadel/saml/pkg/vhook"
 	"fmt"
 	"sort"
 	"strings"
@@ -30,6 +31,8 @@ type c03Case struct {
 	Syms      []int  `json:"syms,omitempty"`
 	UserShape string `json:"user_shape,omitempty"`
 	RealClock bool   `json:"real_clock,omitempty"`
+	Tick      string `json:"tick,omitempty"` // the clock advances by this much with every reading (1us | 1ms | 1s | 7m)
+	Jump      string `json:"jump,omitempty"` // history: an earlier callback, then the clock jumps by this much (Go duration), then the judged callback
 	ACSEmpty  bool   `json:"acs_empty,omitempty"` // the stored consumer URL is empty (response returned in the body)
 	// history: a second stored request for another user shape is called back first on the same provider
 	Earlier string `json:"earlier,omitempty"`
@@ -98,6 +101,8 @@ func (c c03Case) labels() []string {
 	if c.RealClock {
 		l = append(l, "real-clock")
 	}
+	add("clock-advances-with-every-reading-by", c.Tick)
+	add("clock-jumps-after-an-earlier-callback-by", c.Jump)
 	if c.ACSEmpty {
 		l = append(l, "stored-consumer-url=empty")
 	}
@@ -121,9 +126,21 @@ func c03Judge(c c03Case, checkIDs bool) c03Verdict {
 		world.UnpinClock()
 		defer world.PinClock()
 	}
+	now := world.Now
+	if c.Tick != "" {
+		step, err := time.ParseDuration(c.Tick)
+		if err != nil {
+			panic(err)
+		}
+		vhook.TickClock(world.Now, step)
+		defer world.PinClock()
+	}
+	if c.Jump != "" {
+		defer world.PinClock()
+	}
 	p := c.params()
 	w, t := cbBuild(p)
-	if c.Earlier != "" || c.EarlierFault != "" {
+	if c.Earlier != "" || c.EarlierFault != "" || c.Jump != "" {
 		// another session (user bob-like record built from the 'earlier' shape) is called back first
 		ep := cbP{Binding: c.Binding}
 		c03UserShapes[c.Earlier](&ep)
@@ -139,6 +156,14 @@ func c03Judge(c c03Case, checkIDs bool) c03Verdict {
 			w.Store.FaultNext(of[0], 1, of[1])
 		}
 		callbackReq(w, t.Host, r.ID)
+		if c.Jump != "" {
+			d, err := time.ParseDuration(c.Jump)
+			if err != nil {
+				panic(err)
+			}
+			now = world.Now.Add(d)
+			vhook.PinClock(now)
+		}
 	}
 	mustFail := false
 	switch c.Env {
@@ -155,8 +180,16 @@ func c03Judge(c c03Case, checkIDs bool) c03Verdict {
 		t.Entity = "https://sp-moved.example/metadata"
 	}
 	t0 := time.Now().UTC()
+	reads0 := vhook.ClockReads.Load()
 	rep, m := cbRun(w, t)
 	t1 := time.Now().UTC()
+	clk := c03Clock{Now: now, Real: c.RealClock, T0: t0, T1: t1}
+	if c.Tick != "" {
+		step, _ := time.ParseDuration(c.Tick)
+		clk.Ticking = true
+		clk.T0 = world.Now.Add(time.Duration(reads0) * step)
+		clk.T1 = world.Now.Add(time.Duration(vhook.ClockReads.Load()) * step) // the instant of the next reading: "now" when the reply leaves
+	}
 	v.Detail["reply"] = obs.Describe(rep, m)
 	if rep.Panic != "" {
 		v.Class = "blocked_by_panic"
@@ -179,12 +212,23 @@ func c03Judge(c c03Case, checkIDs bool) c03Verdict {
 		v.Clauses = append(v.Clauses, "no-success-response-for-a-completed-request")
 		return v
 	}
-	c03CheckSuccess(&v, m, t, c.TimeFmt, c.RealClock, t0, t1, checkIDs)
+	c03CheckSuccess(&v, m, t, c.TimeFmt, clk, checkIDs)
 	return v
 }
 
+// c03Clock: what the oracle knows about the clock of the judged execution. Pinned (default): every reading is Now. Real: the
+// readings lie in [T0, T1] (a bracket taken around the call, second granularity). Ticking: the k-th reading is T0 + k*step, the
+// reply leaves at T1.
+type c03Clock struct {
+	Now     time.Time
+	Real    bool
+	Ticking bool
+	T0, T1  time.Time
+}
+
 // c03CheckSuccess compares a decoded Success reply field by field with the reference record t.
-func c03CheckSuccess(v *c03Verdict, m *obs.Msg, t *cbTruth, timeFmt string, realClock bool, t0, t1 time.Time, checkIDs bool) {
+func c03CheckSuccess(v *c03Verdict, m *obs.Msg, t *cbTruth, timeFmt string, clk c03Clock, checkIDs bool) {
+	realClock, t0, t1 := clk.Real, clk.T0, clk.T1
 	v.Class = "success:" + m.Kind
 	bad := func(cl string, got, want any) {
 		v.Clauses = append(v.Clauses, cl)
@@ -240,14 +284,35 @@ func c03CheckSuccess(v *c03Verdict, m *obs.Msg, t *cbTruth, timeFmt string, real
 		layout = "2006-01-02T15:04:05Z"
 	}
 	ii := resp.A("IssueInstant")
-	eq("assertion-issueinstant", as.A("IssueInstant"), ii)
 	cond := as.Child("Conditions")
+	if clk.Ticking {
+		// the clock moves while the request is served: the window is judged on the ASSERTION's own instants (the statement does not
+		// say that response and assertion must be stamped with one reading), each instant must be a reading of this request
+		ai := as.A("IssueInstant")
+		eq("conditions-notbefore", cond.A("NotBefore"), ai)
+		eq("subjectconfirmation-notonorafter", scd.A("NotOnOrAfter"), cond.A("NotOnOrAfter"))
+		for name, val := range map[string]string{"response-issueinstant": ii, "assertion-issueinstant": ai} {
+			tt, err := time.Parse(layout, val)
+			if err != nil || tt.Before(t0.Truncate(time.Second)) || tt.After(t1) {
+				bad(name+"-is-not-a-clock-reading-of-this-request", val, t0.Format(layout)+".."+t1.Format(layout))
+			}
+		}
+		ta, err := time.Parse(layout, ai)
+		te, err2 := time.Parse(layout, cond.A("NotOnOrAfter"))
+		if err == nil && (err2 != nil || te.Sub(ta) != 5*time.Minute) {
+			bad("lifetime", cond.A("NotOnOrAfter"), "IssueInstant+5m")
+		}
+		if err == nil && err2 == nil && !t1.Before(te) {
+			bad("expired-when-it-leaves", cond.A("NotOnOrAfter"), "> "+t1.Format(layout))
+		}
+	} else {
+	eq("assertion-issueinstant", as.A("IssueInstant"), ii)
 	eq("conditions-notbefore", cond.A("NotBefore"), ii)
 	eq("authninstant", as.Path("AuthnStatement").A("AuthnInstant"), ii)
 	eq("subjectconfirmation-notonorafter", scd.A("NotOnOrAfter"), cond.A("NotOnOrAfter"))
 	if !realClock {
-		eq("issueinstant-is-now", ii, world.Now.Format(layout))
-		eq("notonorafter-is-now-plus-lifetime", cond.A("NotOnOrAfter"), world.Now.Add(5*time.Minute).Format(layout))
+		eq("issueinstant-is-now", ii, clk.Now.Format(layout))
+		eq("notonorafter-is-now-plus-lifetime", cond.A("NotOnOrAfter"), clk.Now.Add(5*time.Minute).Format(layout))
 	} else {
 		tt, err := time.Parse(layout, ii)
 		if err != nil || tt.Before(t0.Truncate(time.Second)) || tt.After(t1.Add(time.Second)) {
@@ -257,6 +322,7 @@ func c03CheckSuccess(v *c03Verdict, m *obs.Msg, t *cbTruth, timeFmt string, real
 		if err == nil && (err2 != nil || te.Sub(tt) != 5*time.Minute) {
 			bad("lifetime", cond.A("NotOnOrAfter"), "IssueInstant+5m")
 		}
+	}
 	}
 	// IDs
 	rid, aid := resp.A("ID"), as.A("ID")
@@ -338,6 +404,19 @@ func runC03(ctx Ctx) int {
 		}
 		// real clock pass
 		cases = append(cases, c03Case{Binding: b, RealClock: true})
+		// the clock advances with every reading (a second reading anywhere in the request shows as a different instant) ...
+		for _, tick := range []string{"1us", "1ms", "1s", "61s"} {
+			for _, cfg := range configs {
+				c := cfg
+				c.Binding, c.Tick = b, tick
+				cases = append(cases, c)
+			}
+		}
+		// ... and jumps between an earlier callback and the judged one (nothing computed from the earlier clock may be reused)
+		for _, j := range []string{"1us", "1s", "4m59s", "5m", "5m1s", "1h", "24h", "8784h", "-1h"} {
+			cases = append(cases, c03Case{Binding: b, Jump: j})
+			cases = append(cases, c03Case{Binding: b, Jump: j, ACSEmpty: true})
+		}
 		// histories: an earlier callback for another user on the same provider
 		for _, e := range shapes {
 			for _, us := range shapes {
@@ -364,7 +443,7 @@ func runC03(ctx Ctx) int {
 	// real-clock cases run alone (they un-pin the process-wide clock)
 	var pinned, real []c03Case
 	for _, c := range cases {
-		if c.RealClock {
+		if c.RealClock || c.Tick != "" || c.Jump != "" {
 			real = append(real, c)
 		} else {
 			pinned = append(pinned, c)
